@@ -103,6 +103,13 @@ CHECKS = {
             'Every rotation entry point (FileLogger ctor, rotate(force) on append logs, second rotation, FilePersister purge with index files) is run on directories with generated '
             'generation sets and bystander files; contents identify the original file so shifts are checked exactly; counts above the 1024 cap are included.',
             'Where name.(k-1) did not exist the statement is silent about name.k.', '3 C29'),
+    'C30': ('queue_mon', 'exploration', 'runtime monitor with hook H2: exact ticket oracle over recorded push/pop events, under real-thread stress and under controlled schedules (seeded random and depth-first enumeration with a pre-emption bound) of the real queue code',
+            'Half a million elements through 1..8 x 1..8 real threads with injected delays, plus about ten thousand distinct controlled schedules per quick run (far more in thorough, incl. pre-emption bound 3) in which every thread parks '
+            'at every point between the atomic steps of push and pop; ticket equality, exactly-once, producer order and the empty-return rule are decided exactly from the hook events.',
+            'Hook granularity, x86-64 TSO; not all interleavings: enumeration is bounded by pre-emptions and budget (evidence says which plans completed).', '3 C30'),
+    'C31': ('timer_mon', 'exploration', 'runtime monitor on real Timer threads: lower-bound oracle on callback entry instants (same clock as the Timer), due-order by a global atomic ticket, repeat counts, silence after clear()',
+            'Hundreds of timers per run with 1..3 rounds of events (delays 1..200 ms, repeats, callbacks returning false, slow callbacks), clear() at random moments and re-scheduling afterwards.',
+            'Only lower bounds and order are asserted, never lateness.', '3 C31'),
     'C32': ('xml_tree', 'exploration', 'generator tree as reference vs parsed XmlElement tree (tags, decoded attributes, text, child order, path lookups); mutated/random bytes under ASan+UBSan',
             'Thousands of generated documents per run exercise every reference spelling, quoting and whitespace variation the generator knows, including reference-looking literal '
             'text; tens of thousands of corrupted documents must produce a tree or XMLError.',
@@ -154,6 +161,8 @@ def main():
             {'name': 'persist_crash', 'path': 'harness/persist_crash.cpp', 'serves_properties': ['C27'], 'kind_free_text': 'fork + write/lseek countdown crash injection, reopen oracle'},
             {'name': 'logger_stress', 'path': 'harness/logger_stress.cpp', 'serves_properties': ['C28'], 'kind_free_text': 'producer threads + offline exactly-once/order checker'},
             {'name': 'rotate_fs', 'path': 'harness/rotate_fs.cpp', 'serves_properties': ['C29'], 'kind_free_text': 'rotation vs directory snapshots'},
+            {'name': 'queue_mon', 'path': 'harness/queue_mon.cpp', 'serves_properties': ['C30'], 'kind_free_text': 'stress + cooperative scheduler over hook H2, ticket oracle'},
+            {'name': 'timer_mon', 'path': 'harness/timer_mon.cpp', 'serves_properties': ['C31'], 'kind_free_text': 'real timers, lower-bound/order/clear oracle'},
             {'name': 'xml_tree', 'path': 'harness/xml_tree.cpp', 'serves_properties': ['C32'], 'kind_free_text': 'tree generator/serialiser, structural comparison, byte mutation'},
         ],
         'checks': checks,
